@@ -17,6 +17,7 @@ import (
 	"strings"
 	"sync"
 
+	"github.com/NethermindEth/juno/blockchain/networks"
 	"github.com/NethermindEth/juno/core"
 	"github.com/NethermindEth/juno/core/felt"
 	"verif/harness/lib"
@@ -24,20 +25,18 @@ import (
 
 type acceptChecker struct {
 	drv   *lib.Driver
-	g     *lib.ChainGen
+	net   *networks.Network
 	cache map[string]string // tx line -> evaluated hash ("~" when the model reports an error)
 	mu    sync.Mutex
 }
 
-func newAcceptChecker(f lib.Flags, g *lib.ChainGen) *acceptChecker {
-	if f.Driver == "" {
-		return nil
-	}
+func newAcceptChecker(f lib.Flags, res *lib.Result, g *lib.ChainGen) *acceptChecker {
 	drv, err := lib.StartDriver(f.Driver)
 	if err != nil {
+		res.Fatalf("accept correspondence: the Lean driver did not start: %v", err)
 		return nil
 	}
-	return &acceptChecker{drv: drv, g: g, cache: map[string]string{}}
+	return &acceptChecker{drv: drv, net: g.Net, cache: map[string]string{}}
 }
 
 func (a *acceptChecker) close() {
@@ -95,7 +94,7 @@ func (w *wbuf) bundle(b *lib.Bundle) {
 // modelVerdict returns the model's verdict class for bundle b offered to a node whose head is
 // (headNumber, headHash) (headHash nil: empty chain).
 func (a *acceptChecker) modelVerdict(b *lib.Bundle, headNumber uint64, headHash *felt.Felt) (string, error) {
-	net := a.g.Net
+	net := a.net
 	var tv []string
 	for _, tx := range b.Block.Transactions {
 		if tx == nil {
@@ -165,7 +164,7 @@ func (a *acceptChecker) compare(res *lib.Result, tc tamperCase, headNumber uint6
 	}
 	model, err := a.modelVerdict(tc.Bundle, headNumber, headHash)
 	if err != nil {
-		res.Note("accept correspondence (%s): %v", tc.Name, err)
+		res.Fatalf("accept correspondence (%s): %v", tc.Name, err)
 		return
 	}
 	// answer: "<verdict of accept> | <every check that fails on its own>"
